@@ -185,19 +185,28 @@ pub fn gen_graph(rng: &mut Rng, n: usize, shape: Shape) -> Graph {
             }
         }
         Shape::Wide => {
-            // some nodes with many direct parents (beyond the inline hints 10/30)
-            let base = (n * 2 / 3).max(1);
-            for i in 1..base {
+            // three tiers: grandparents (children of node 0 or further roots), parents with one or two
+            // grandparents each (so that different parents have DIFFERENT ancestors), and wide nodes with
+            // many direct parents (beyond the inline hints 10 / 30)
+            let g_end = (n / 5).max(2).min(n);
+            let p_end = (n * 2 / 3).max(g_end + 1).min(n);
+            for i in 1..g_end {
                 if rng.chance(2, 3) {
                     add(&mut parents, i, 0);
                 }
             }
-            for i in base..n {
-                // up to 14 direct parents, and for large enough graphs sometimes more than the inline
-                // capacity (30) of the parent group
+            for i in g_end..p_end {
+                let k = rng.urange(1, 2);
+                for _ in 0..k {
+                    let gp = rng.usize_below(g_end);
+                    add(&mut parents, i, gp);
+                }
+            }
+            let base = p_end - g_end;
+            for i in p_end..n {
                 let k = if base > 34 && (i == n - 1 || rng.chance(1, 3)) { rng.urange(31, base.min(40)) } else { rng.urange(1, base.min(14)) };
                 for p in rng.sample_indices(base, k) {
-                    add(&mut parents, i, p);
+                    add(&mut parents, i, g_end + p);
                 }
             }
         }
@@ -466,7 +475,7 @@ pub fn gen_facts(rng: &mut Rng, cfg: &GenCfg) -> FactSet {
         let mut n = rng.urange(cfg.n_min.max(if cfg.defaults { 2 } else { 1 }), cfg.n_max.max(2));
         let id_mode = cfg.id_mode.unwrap_or_else(|| *rng.pick(&ALL_ID_MODES));
         if shape == Shape::Wide && (id_mode == IdMode::Dense || rng.chance(1, 3)) {
-            n = rng.urange(56, 70); // enough potential parents for a term with more than 30 of them
+            n = rng.urange(80, 90); // enough potential parents for a term with more than 30 of them
         }
         if shape == Shape::Deep {
             // deep chains cross the inline capacity of the ancestor small-vector (30) twice over
